@@ -23,6 +23,15 @@ CLAIMED = {
  "C14": ("SSA freshness over the Assoc/Dissoc call tree and element-variable code (FRESH); def-use check that the head variable is set only from the Assoc/Dissoc chain (ASSOC-CHAIN)",
          "Structural lemma: element assignment/deletion reaches containers only through vals.Index/Assoc/Dissoc, none of which (nor the persistent packages under them) writes into non-fresh memory, and the head variable is rebound only to the chain's result. That exactly the addressed element changes is not decided.",
          "trusts go/ssa; user-defined Assocer implementations outside pkg/eval/vals are not followed"),
+ "C39": ("lockset dataflow over SSA with boolean-correlated path sensitivity (EVALER-LOCK, PTRVAR-LOCK); guarded-field set derived from the struct declaration (GUARDED-SET)",
+         "Structural necessary condition, all paths of all functions: every access to the interpreter's mutex-guarded fields and every dereference of a PtrVar pointer happens with the right lock held; maps do not leave the critical section; locks are balanced. Freedom from races on other state and serialisability of results are not decided.",
+         "trusts go/ssa; lock identity is by struct field, not by object (one Evaler per interpreter)"),
+ "C32": ("lockset on the redraw flag (FULL-LOCK), select/capacity shape check (NONBLOCK), path pairing on the event loop's CFG (FINAL-ONCE, REDRAW-AFTER-WAKE)",
+         "Structural necessary conditions: the full-redraw flag is set before the wake-up token inside one critical section, request sends never block and are never dropped for lack of buffer, every return of the loop passes exactly one final redraw, the loop starts no goroutine and always redraws between two waits. Arrival order and liveness under real schedules are not decided.",
+         "trusts go/ssa"),
+ "C30": ("lockset on the highlight cache (CACHE-LOCK), control-dependence check of the late store on cache.code == captured code (STALE-GUARD), literal/def-use agreement (GET-CONSISTENT)",
+         "Structural lemma for the 'never stale' clause: a late result is stored only if, under the lock, the cached code still equals the code it was computed for; the synchronous path caches code and result together. That highlighted segments concatenate back to the code is not decided.",
+         "trusts go/ssa"),
 }
 
 NOT_APPLICABLE = {
